@@ -456,13 +456,30 @@ where
 
 
 
-/// Locally issued writes: a node's own storage log entries whose stamp carries its id
-/// (replicated copies carry the origin's id).
+/// Locally issued writes: a node's own storage log entries whose stamp carries its id and
+/// that reached *its* storage before any other node's (replicated copies carry the origin's
+/// id; a copy whose stamp was altered on the way carries the origin's id too, but shows up at
+/// a replica first and comes back to the origin by anti-entropy — that is not an operation
+/// anybody issued).
 fn reference_from_logs<I>(cluster: &Cluster<FaultStore<I>>) -> (BTreeMap<Key, Doc>, usize)
 where
     I: Storage,
     I::Error: std::fmt::Display,
 {
+    let mut first_seen: BTreeMap<(Key, HLCTimestamp), (u64, NodeId)> = BTreeMap::new();
+    for n in &cluster.nodes {
+        for e in n.storage.log() {
+            if e.call == "remove_tombstones" {
+                continue;
+            }
+            for (id, ts, _) in &e.docs[..e.written.min(e.docs.len())] {
+                let slot = first_seen.entry((*id, *ts)).or_insert((e.seq, n.id));
+                if e.seq < slot.0 {
+                    *slot = (e.seq, n.id);
+                }
+            }
+        }
+    }
     let mut best: BTreeMap<Key, (HLCTimestamp, Option<Vec<u8>>)> = BTreeMap::new();
     let mut count = 0;
     for n in &cluster.nodes {
@@ -471,7 +488,7 @@ where
                 continue;
             }
             for (id, ts, data) in &e.docs[..e.written.min(e.docs.len())] {
-                if ts.node() != n.id {
+                if ts.node() != n.id || first_seen.get(&(*id, *ts)).map(|f| f.1) != Some(n.id) {
                     continue;
                 }
                 count += 1;
